@@ -209,6 +209,45 @@ pub fn run(r: &Report) {
         r.sample(sub, json!({"item": small[small.len() / 3].diag(), "input_hex": hex(&small[small.len() / 3].to_bytes())}));
     }
 
+    // hostile heads: every initial byte x every argument width x extreme declared lengths, judged by the reference parser
+    {
+        let sub = "hostile-heads";
+        let hs = hostile_heads();
+        r.space(sub, true, &format!("{} inputs: all 256 initial bytes x every argument width x boundary arguments (up to 2^64-1) x 9 fillers; the reference parser decides: a complete item must be skipped exactly, an input that ends inside an item must be refused (an ill-formed one may give either)", hs.len()), 2);
+        let mut n = 0u64;
+        let mut complete = 0u64;
+        let mut truncated = 0u64;
+        for h in &hs {
+            n += 1;
+            mcx::slot::case("skip-hostile", h);
+            let mut d = Decoder::new(h);
+            let res = mcx::par::guard(|| d.skip().is_ok());
+            match (parse(h), res) {
+                (_, Err(p)) => r.fail(sub, None, json!({"input_hex": hex(h)}), format!("skip() panicked: {}", p)),
+                // text that is not UTF-8 is well-formed but not valid: skip(), like full decoding, may refuse it
+                (Ok((item, _)), Ok(_)) if !item.utf8_ok() => {}
+                (Ok((item, used)), Ok(ok)) => {
+                    complete += 1;
+                    if !ok || d.position() != used {
+                        r.fail(sub, None, json!({"input_hex": hex(h), "item": item.diag()}), format!("skip() returned {} with position {}, the first item ends at {}", if ok { "Ok" } else { "Err" }, d.position(), used));
+                    }
+                }
+                (Err(ParseErr::EndOfInput), Ok(ok)) => {
+                    truncated += 1;
+                    if ok {
+                        r.fail(sub, None, json!({"input_hex": hex(h)}), format!("skip() returned Ok (position {}) although the input ends inside the item", d.position()));
+                    }
+                }
+                (Err(ParseErr::IllFormed), Ok(_)) => {}
+            }
+        }
+        r.add(sub, n, complete + truncated);
+        r.add_states(sub, n, n);
+        r.outcome(sub, "complete item", complete);
+        r.outcome(sub, "input ends inside the item", truncated);
+        r.sample(sub, json!({"input_hex": "bb8000000000000000ff", "expected": "Err (a map of 2^63 entries cannot be complete)"}));
+    }
+
     // trees with non-preferred heads: widths influence item boundaries
     {
         let sub = "width-deviations";
